@@ -1,4 +1,5 @@
 import GoPlugin.Model.Crash
+import GoPlugin.Model.Lifecycle
 /-
 C03 — Plugin failure at any point becomes a host error, never a crash or hang.
 
@@ -155,5 +156,20 @@ example : ∃ s, runFrom pGood init [.extraLine, .extraLine, .procDies] = some s
 example : ∃ s, runFrom pGood init [.scannerError, .procDies] = some s ∧ s.procAlive = false ∧
     (settle pGood s).exited = true ∧ (settle pGood s).ctxCancelled = true ∧ (settle pGood s).wait = .done := by
   refine ⟨(runFrom pGood init [.scannerError, .procDies]).get (by decide), by simp, by decide, by decide, by decide, by decide⟩
+
+/-! ### reattached clients -/
+
+/-- **The exit watcher of a reattached client waits for the plugin itself**, child of this host or not, **and notices its
+death within a second**, however long the plugin had been running. -/
+theorem reattached_exit_noticed (R : Lifecycle.ReattachParams) (hR : R.Good) (isChild : Bool) (ageMs : Nat) :
+    Lifecycle.reattachWaitFaithful R isChild = true ∧ Lifecycle.reattachExitNoticedWithin R ageMs ≤ 1000 := by
+  obtain ⟨_, hw, hp, hq⟩ := hR
+  simp [Lifecycle.reattachWaitFaithful, Lifecycle.reattachExitNoticedWithin, hw, hp, hq]
+
+/-- Witnesses: `os.Process.Wait` on a plugin another process launched returns at once (the client reports a running plugin
+as exited); a polling interval that backs off notices the crash of a plugin that ran for an hour an hour late -/
+theorem reattach_wait_witnesses :
+    Lifecycle.reattachWaitFaithful ⟨true, false, 1000⟩ false = false ∧
+    Lifecycle.reattachExitNoticedWithin ⟨true, true, 0⟩ 3600000 = 3600000 := by decide
 
 end GoPlugin.Props.C03
